@@ -218,14 +218,16 @@ package resolve
 //@   ensures imp(!less(i, j) && !less(j, i), vs[i].Version == vs[j].Version)
 //@   property C12
 
-// The constraint matcher is used by symbol: a pure function of the constraint
-// object and the version string (assumed: it reads only semver's own data).
+// The constraint matcher is used by symbol: a function of the constraint
+// object and the version string that reads only semver's own data (the reads
+// clause is an obligation against the may-read analysis).
 //@ opaque ::semver.(*Constraint).Match
 //@ func ::semver.(*Constraint).Match
-//@   reads H:semver.* E:semver.* E:string E:uint8 M:map[string]* G:semver.*
+//@   reads H:semver.* H:*semver.* E:semver.* E:string E:uint8 M:map[string]* G:semver.* E:struct* H:[]string* H:bool
+//@   property C12
 
-// The constraint parser builds new objects only (assumed frame; it is verified
-// for panic-freedom in util/semver under C04, not for this frame).
+// The constraint parser builds new objects only (the frame is an obligation
+// against the may-write analysis, verified by the C12 check).
 //@ func ::semver.System.ParseConstraint
 //@   modifies alloc H:semver.* H:*semver.* H:[]* H:bool H:int E:semver.* E:string E:uint8 E:any B:* M:map[string]* G:semver.* H:strings.Builder.* X:buffer*
 //@   property C12
